@@ -98,6 +98,30 @@ func (e *env) close() {
 	os.RemoveAll(e.dir)
 }
 
+// reopen closes both databases and opens them again on the same directories (everything that was
+// flushed must come back from the files; the memory tables are gone).
+func (e *env) reopen() error {
+	if err := e.idx.Close(); err != nil {
+		return err
+	}
+	if err := e.meta.Close(); err != nil {
+		return err
+	}
+	envSeq++
+	var err error
+	e.meta, err = index.NewMetricMetaDatabase(fmt.Sprintf("lvh-c10-%d", envSeq), e.metaDir)
+	if err != nil {
+		return err
+	}
+	e.idx, err = index.NewMetricIndexDatabase(e.indexDir, e.meta)
+	if err != nil {
+		return err
+	}
+	e.db = &fakeDB{meta: e.meta}
+	e.shard = &fakeShard{idx: e.idx}
+	return nil
+}
+
 const fieldName = "f"
 
 // write sends one series (namespace, metric, tags) through the code handleRow runs:
